@@ -17,8 +17,9 @@ def main():
     if a.tier not in ('quick', 'thorough'):
         a.tier = 'quick'
     import darr
-    if not os.path.abspath(darr.__file__).startswith('/repo/'):
-        raise Machinery('darr imported from %s, not /repo' % darr.__file__)
+    root = os.path.abspath(os.environ.get('VERIF_REPO', '/repo')) + '/'
+    if not os.path.abspath(darr.__file__).startswith(root):
+        raise Machinery('darr imported from %s, not %s' % (darr.__file__, root))
     mod = importlib.import_module('harness.checks.%s' % a.prop.lower())
     if a.replay:
         return mod.replay(a.replay)
